@@ -72,7 +72,8 @@ theorem C16_captures_len_of_translated_eq (c : RCaptures) : genCapturesLenOf c =
 /-- `Captures::get(i)`: on the VM path for every value; on the wrapped path for a slot vector of even length (what
     regex-automata hands out) -/
 theorem C16_captures_get_translated_eq (c : RCaptures) (i : Nat)
-    (hw : ∀ slots, c.inner = .wrap (some slots) → slots.length % 2 = 0) :
+    (hw : ∀ slots, c.inner = .wrap (some slots) → slots.length % 2 = 0)
+    (hl : ∀ saves, c.inner = .fancy saves → saves.length ≤ 2 ^ 64) :
     gotOf (genCapturesGet c i) = (toCaps c).get i := by
   unfold genCapturesGet toCaps Caps.get
   cases hi : c.inner with
@@ -90,7 +91,14 @@ theorem C16_captures_get_translated_eq (c : RCaptures) (i : Nat)
         rw [List.getElem?_eq_getElem (by omega : i * 2 < slots.length), List.getElem?_eq_getElem hlt]
         cases slots[i * 2] <;> simp [gotOf, rawOf]
   | fancy saves =>
+    have hlen := hl saves hi
     simp only [viewSlots_length, viewSlots_get]
+    by_cases hov' : 18446744073709551616 ≤ i * 2
+    · -- the slot number does not fit a `usize`: `checked_mul` gives `None`, and the slot is beyond the vector
+      have hge : i * 2 ≥ saves.length := by omega
+      rw [if_neg (by omega), if_pos hge]; rfl
+    have hov : i * 2 < 18446744073709551616 := by omega
+    rw [if_pos hov]; simp only []
     by_cases hge : i * 2 ≥ saves.length
     · simp [hge, gotOf]
     · simp only [hge, decide_false, Bool.false_eq_true, if_false]
@@ -107,7 +115,8 @@ theorem C16_captures_get_translated_eq (c : RCaptures) (i : Nat)
           by_cases hu : hi2 = UNSET <;> simp [hu]
 
 theorem C16_captures_name_translated_eq (c : RCaptures) (nm : GenLib.Name)
-    (hw : ∀ slots, c.inner = .wrap (some slots) → slots.length % 2 = 0) :
+    (hw : ∀ slots, c.inner = .wrap (some slots) → slots.length % 2 = 0)
+    (hl : ∀ saves, c.inner = .fancy saves → saves.length ≤ 2 ^ 64) :
     gotOf (genCapturesName c nm) = (toCaps c).name nm := by
   unfold genCapturesName Caps.name
   have hn : (toCaps c).names = c.namedGroups := rfl
@@ -116,7 +125,7 @@ theorem C16_captures_name_translated_eq (c : RCaptures) (nm : GenLib.Name)
   | none => simp [gotOf]
   | some i =>
     simp only
-    rw [← C16_captures_get_translated_eq c i hw]
+    rw [← C16_captures_get_translated_eq c i hw hl]
     cases genCapturesGet c i <;> rfl
 
 /-! ## `Captures::iter` + `SubCaptureMatches::next` -/
@@ -132,6 +141,7 @@ def subDrain : Nat → RSubCaptureMatches → List Got
     | .err _ => []
 
 theorem subDrain_eq (c : RCaptures) (hw : ∀ slots, c.inner = .wrap (some slots) → slots.length % 2 = 0)
+    (hl : ∀ saves, c.inner = .fancy saves → saves.length ≤ 2 ^ 64)
     (hnp : ∀ i, (toCaps c).get i ≠ .panic) :
     ∀ (k i : Nat), (toCaps c).len - i = k → subDrain (k + 1) ⟨c, i⟩ = (List.range' i k).map (toCaps c).get := by
   intro k
@@ -143,7 +153,7 @@ theorem subDrain_eq (c : RCaptures) (hw : ∀ slots, c.inner = .wrap (some slots
   | succ k ih =>
     intro i h
     have hlt : i < (toCaps c).len := by omega
-    have hg := C16_captures_get_translated_eq c i hw
+    have hg := C16_captures_get_translated_eq c i hw hl
     have hn := hnp i
     rw [subDrain]
     simp only [genSubCaptureMatchesNext, C16_captures_len_of_translated_eq, hlt, decide_true, if_true]
@@ -155,7 +165,8 @@ theorem subDrain_eq (c : RCaptures) (hw : ∀ slots, c.inner = .wrap (some slots
     | err e => rw [hr] at hg; exact absurd hg.symm hn
 
 /-- `caps.iter()` drained through the translated `next` is the model's `Caps.iter`, for a `Captures` with `2 * n` slots -/
-theorem C16_captures_iter_translated_eq (c : RCaptures) (n : Nat) (hlen : (toCaps c).slots.length = 2 * n) :
+theorem C16_captures_iter_translated_eq (c : RCaptures) (n : Nat) (hlen : (toCaps c).slots.length = 2 * n)
+    (hl : ∀ saves, c.inner = .fancy saves → saves.length ≤ 2 ^ 64) :
     subDrain ((toCaps c).len + 1) (genCapturesIter c) = (toCaps c).iter := by
   have hacc := C16_caps_accessors (toCaps c) n hlen
   have hw : ∀ slots, c.inner = .wrap (some slots) → slots.length % 2 = 0 := by
@@ -163,7 +174,7 @@ theorem C16_captures_iter_translated_eq (c : RCaptures) (n : Nat) (hlen : (toCap
     have : (toCaps c).slots = slots := by simp [toCaps, hs]
     rw [this] at hlen; omega
   rw [Caps.iter_eq, List.range_eq_range']
-  exact subDrain_eq c hw hacc.2.2.2.2.1 _ 0 (by omega)
+  exact subDrain_eq c hw hl hacc.2.2.2.2.1 _ 0 (by omega)
 
 /-! ## `Regex::capture_names` -/
 
